@@ -91,6 +91,13 @@ def items(tier, seed):
     pairs = [[a, b] for a in vs for b in vs]
     for i in range(0, len(pairs), 27 if q else 40):
         out.append(dict(name=f"a2cloop-{i}", fam="a2cloop", seed=seed, tier=tier, pairs=pairs[i : i + (27 if q else 40)]))
+    # PPO collector: the value a step is bootstrapped from is the value of THAT step's successor observation - at the last step
+    # of an episode the final observation of the episode, never the first observation of the next one
+    vs3 = _senv.scripts(4, "cTU", 1)
+    cpairs = [[a, b] for a in vs3 for b in vs3 if ("U" in a + b or "T" in a + b)]
+    for lg in (0, 1):
+        for i in range(0, len(cpairs), 40):
+            out.append(dict(name=f"ppo-collector-log{lg}-{i}", fam="ppo-collector", seed=seed, tier=tier, logger=bool(lg), pairs=cpairs[i:i + 40]))
     # MR.Q creating its own replay buffer: the critic's n-step reward sequences come from the following steps of one episode
     from vlib import mrq_windows
 
@@ -1201,9 +1208,56 @@ def work_a2cloop(item, col):
     col.sample(dict(fam="a2cloop", pairs=item["pairs"][:2]))
 
 
+def work_ppo_collector(item, col):
+    import contextlib
+    import io
+
+    import gymnasium as gym
+    import jax
+    import jax.numpy as jnp
+
+    from checks.c01 import TagCritic, make_vec, pg_state
+    from rl_blox.algorithm import ppo
+    from vlib import drivers
+
+    T = 4
+    entry = "ppo.collect_trajectories" + ("(logger)" if item["logger"] else "")
+    w = np.array([100.0, 1.0, 10000.0])
+    for pair in item["pairs"]:
+        envs = make_vec(pair, True, gym.vector.AutoresetMode.SAME_STEP, T)
+        st = pg_state(envs.envs[0], True, item["seed"])
+        obs, _ = envs.reset(seed=1)
+        wrapped = gym.wrappers.vector.RecordEpisodeStatistics(envs)
+        logger = drivers.RecLogger() if item["logger"] else None
+        drivers._register_logger()
+        with contextlib.redirect_stdout(io.StringIO()):
+            traj = ppo.collect_trajectories(wrapped, st.policy, TagCritic(), jax.random.key(1), T, logger, jnp.asarray(obs), 0)
+        steps = [e for e in envs.vlog if e[0] == "step"][:T]
+        NV = np.asarray(traj.next_value).reshape(2, T)
+        for t, e in enumerate(steps):
+            for i in range(2):
+                ended = bool(e[4][i] or e[5][i])
+                fin = e[6][i] if (e[6] is not None and e[6][i] is not None) else None
+                succ = fin if (ended and fin is not None) else e[2][i]  # the step's own successor observation
+                want = float(np.asarray(succ, dtype=np.float64) @ w)
+                trunc_only = bool(e[5][i]) and not bool(e[4][i])
+                col.tick(1, ("ppo-collector", item["logger"], tuple(pair), t, i) if ended else None)
+                if trunc_only:
+                    col.outcome("ppo_collector_truncated_steps")
+                if bool(e[4][i]):
+                    continue  # a terminated step does not bootstrap (the value is masked by the recurrence)
+                if float(NV[i, t]) != want:
+                    kind = "truncated-step-bootstrapped-from-the-next-episode" if trunc_only else "bootstrap-value-not-of-the-step's-successor"
+                    col.violation(SIG.format(entry, kind), dict(scripts=pair, logger=item["logger"], t=t, env=i, next_value=float(NV[i, t]), value_of_the_step_successor=want))
+        envs.close()
+    col.sample(dict(kind="ppo.collect_trajectories bootstrap values", logger=item["logger"], pairs=item["pairs"][:3]))
+
+
 def work(item, col):
     if item["fam"] == "a2cloop":
         return work_a2cloop(item, col)
+    if item["fam"] == "ppo-collector":
+        return work_ppo_collector(item, col)
     if item["fam"] == "mrq-own-buffer":
         from vlib import mrq_windows
 
